@@ -613,7 +613,7 @@ class StageExecutor(ThreadPoolExecutor):
             self.w.log.add('exec.submit', stage_of=self.stage, seq=seq, outstanding=self.outstanding, task=type(fn).__name__, tid=tid)
 
             def run(*a, **k):
-                self.w.log.add('exec.start', stage_of=self.stage, seq=seq, task=type(fn).__name__)
+                self.w.log.add('exec.start', stage_of=self.stage, seq=seq, task=type(fn).__name__, tid=tid)
                 try:
                     return fn(*a, **k)
                 finally:
